@@ -403,6 +403,16 @@ def run(ctx):
                 ctx.violation('property', '%s(%s) = %s, but %d of the %d ordered pairs of distinct positions coincide' %
                               (name, [str(x) for x in s[:20]], impl, num, den),
                               dict(func=name, sample=[str(x) for x in s], expected='%d/%d' % (num, den)), site='stats.' + name.split('[')[0])
+        # 'pc_n applied to the multiplicity vector returns the same number': the two library functions on the same data, compared as
+        # numbers (not within a tolerance) - both evaluate one quotient of two integers below 2**53, which has one float64 value
+        if den and den < 2 ** 53:
+            rs, rn = call_impl(st.pc, arg), call_impl(st.pc_n, np.unique(np.asarray(arg), return_counts=True)[1])
+            ctx.count('same_number_pc_vs_pc_n')
+            if rs[0] == 'ok' and rn[0] == 'ok' and not (rs[1] == rn[1] or (rs[1] != rs[1] and rn[1] != rn[1])):
+                ctx.violation('property', 'pc(%s) = %r but pc_n(its multiplicities %s) = %r: not the same number (%d/%d)' %
+                              ([str(x) for x in s[:20]], rs[1], list(mults)[:20], rn[1], num, den),
+                              dict(func='pc vs pc_n', sample=[str(x) for x in s], multiplicities=[int(m) for m in mults], pc=repr(rs[1]),
+                                   pc_n=repr(rn[1]), expected='%d/%d' % (num, den)), site='stats.pc[same number as pc_n]')
         # the same objects evaluated two times: the count vector as np.unique returns it (an ndarray the caller keeps using), counts
         # held in a Series (value_counts), the sample itself as ndarray / Series
         labels = ['k%d' % i for i in range(len(mults))]
@@ -513,6 +523,14 @@ def run(ctx):
                               (name, rows, cols, list(sel), impl, n_, d_),
                               dict(func=name, rows=show_rows(rows), columns=cols, on=list(sel), expected='%d/%d' % (n_, d_)),
                               site='stats.%s[%s]' % (name.split('[')[0], 'missing' if with_missing else 'plain'))
+        # 'pc_n applied to the multiplicity vector and pc_joint applied to the selected columns return the same number'
+        rj, rn = call_impl(st.pc_joint, df, list(cols)), call_impl(st.pc_n, np.array(rmults))
+        ctx.count('same_number_pc_joint_vs_pc_n')
+        if den and rj[0] == 'ok' and rn[0] == 'ok' and not (rj[1] == rn[1] or (rj[1] != rj[1] and rn[1] != rn[1])):
+            ctx.violation('property', 'pc_joint on rows %s = %r but pc_n(multiplicities %s of the rows) = %r: not the same number (%d/%d)' %
+                          (rows, rj[1], list(rmults), rn[1], num, den),
+                          dict(func='pc_joint vs pc_n', rows=show_rows(rows), columns=cols, multiplicities=[int(m) for m in rmults],
+                               pc_joint=repr(rj[1]), pc_n=repr(rn[1]), expected='%d/%d' % (num, den)), site='stats.pc_joint[same number as pc_n]')
         if not df.equals(before):
             ctx.violation('property', 'pc / pc_joint modified the caller\'s table', dict(rows=show_rows(rows)), site='stats.pc[mutation]')
         if ncol == 2 and not with_missing and t % 4 == 0:
@@ -522,6 +540,25 @@ def run(ctx):
             n2, d2 = ctx.oracle.run([('api_pc1', [tokens(k2)])])[0]
             if not frac_ok(impl, n2, d2):
                 ctx.violation('property', 'pc((alpha, beta) tuple) = %s, expected %d/%d' % (impl, n2, d2), dict(a=a, b=b), site='stats.pc[tuple]')
+        if ncol == 2 and not with_missing and t % 4 in (1, 2):
+            # the legacy (alpha, beta) tuple pairs the chains by POSITION: the same two chains held in Series with another / a permuted /
+            # a partly shared index are the same sample (chains taken from differently indexed tables)
+            a, b = [str(r[0]) for r in rows], [str(r[1]) for r in rows]
+            k2 = list(zip(a, b))
+            n2, d2 = ctx.oracle.run([('api_pc1', [tokens(k2)])])[0]
+            perm = list(range(len(a)))
+            rng.shuffle(perm)
+            for what, ia, ib in (('default index / permuted integer index', None, perm),
+                                 ('string labels / default index', ['r%d' % i for i in range(len(a))], None),
+                                 ('shifted index / default index', list(range(5, 5 + len(a))), None)):
+                sa, sb = pd.Series(a, index=ia), pd.Series(b, index=ib)
+                impl = call_impl(st.pc, (sa, sb))
+                ctx.count('legacy_tuple_series_indexes')
+                if not frac_ok(impl, n2, d2):
+                    ctx.violation('property', 'pc((alpha, beta)) with the chains held in Series (%s) = %s, but %d/%d pairs of positions hold '
+                                  'equal (alpha, beta) pairs; chains %s / %s' % (what, impl, n2, d2, a, b),
+                                  dict(func='pc((Series, Series))', a=a, b=b, index_a=ia, index_b=ib, expected='%d/%d' % (n2, d2)),
+                                  site='stats.pc[tuple of Series]')
         if ncol == 4 and t % 2 == 0:
             # a legacy tuple of two numeric chains is a two-column table of numbers
             a, b = [r[2] for r in rows], [r[3] for r in rows]
